@@ -500,6 +500,13 @@ def install(extra_globals=None, modules_prefix="skactiveml"):
                     d[k] = v
 
 
+    for (mname, attr), v in stubs.MODULE_STUBS.items():
+        mod = sys.modules.get(mname)
+        if mod is not None and hasattr(mod, attr) and mod.__dict__[attr] is not v:
+            _SAVED.append((mod.__dict__, attr, mod.__dict__[attr]))
+            mod.__dict__[attr] = v
+
+
 def uninstall():
     while _SAVED:
         d, k, v = _SAVED.pop()
